@@ -10,10 +10,10 @@ PROP = dict(
         "statime_wire::TlvSet::{deserialize,serialize,tlvs}, TlvSetIterator::next, Tlv::{serialize,deserialize}, TlvSetBuilder::{add,build}, TlvType::{from_primitive,to_primitive}",
         "statime_wire::{Timestamp,TimeInterval,PortIdentity,ClockIdentity,ClockQuality,ClockAccuracy,TimeSource,ManagementAction} codecs",
     ],
-    bounds="parse direction: per message type (first octet concrete: messageType, sdoId high nibble 0), all remaining bytes unstructured, symbolic length <= header+body+12 (<= 64): all TLV chains that fit; "
-           "build direction: each of the ten body types with every public field symbolic (header: all 19 fields), a TlvSet built with TlvSetBuilder from 0, 1 or 2 TLVs, each with a symbolic type "
+    bounds="parse direction: Sync-typed datagrams (first octet concrete 0x00), all remaining bytes unstructured, symbolic length <= 56: all TLV chains that fit in 12 bytes; "
+           "build direction: Sync, Announce and Management bodies (the other seven body types have harnesses c41_build_<type> in the module, same code path, not registered because not run to completion) with every public field symbolic (header: all 19 fields), a TlvSet built with TlvSetBuilder from 0, 1 or 2 TLVs, each with a symbolic type "
            "(7 named types + Reserved/Experimental/Legacy payload ranges) and a symbolic value of symbolic length 0..=4",
-    outside="fully unstructured first octet (sdoId high nibble != 0 in the parse direction; the build direction covers all sdoId values): the unstructured U(52) run (c41_parse_u52, not registered) did not finish in 25 min; byte strings longer than 64 bytes and TLV chains longer than 12 bytes (property text: up to 4096 bytes); TLV values longer than 4 bytes; non-canonical enum payloads that the type system allows but that alias another "
+    outside="parse direction for the nine non-Sync message types (harnesses c41_parse_<type> exist, not run to completion) and undefined types (c41_parse_badtype: 2.5M steps, out of memory); fully unstructured first octet (sdoId high nibble != 0 in the parse direction; the build direction covers all sdoId values): the unstructured U(52) run (c41_parse_u52, not registered) did not finish in 25 min; byte strings longer than 64 bytes and TLV chains longer than 12 bytes (property text: up to 4096 bytes); TLV values longer than 4 bytes; non-canonical enum payloads that the type system allows but that alias another "
             "variant on the wire (ClockAccuracy::ProfileSpecific(v>=0x7e), TimeSource::ProfileSpecific/Reserved holding a named code, TlvType::Reserved/Legacy/Experimental holding a code of another class); serde impls; "
             "meaning of reserved bits: the oracle requires equality on the defined bits of IEEE 1588-2019 and zero on reserved bits (flagField 0x98/0x80, messageTypeSpecific, controlField, Announce/Pdelay_Req reserved octets)",
     assumptions=[
@@ -23,14 +23,13 @@ PROP = dict(
     ],
     stub_notes=["no stubs: plain #[kani::proof] harnesses over the public API (+ hook statime_wire::verif::common::tlv::tlv_type_to_primitive to read a TLV type code)"],
     harnesses=[
-        H(ST, "c41", "c41_parse_" + k, "%s-typed datagrams (first octet fixed, sdoId high nibble 0), every other byte and the length symbolic (<= 34+body+12, capped at 64): Ok(m) => serialize writes messageLength bytes equal to the input on all defined bits "
-                                        "(reserved bits zero), header fields at their wire offsets, TLV iterator walks exactly the raw suffix; no panic" % n,
-          tier=("quick" if k in ("sync",) else "thorough"), timeout=900) for k, n in _kinds
+        H(ST, "c41", "c41_parse_sync", "Sync-typed datagrams (first octet 0x00 fixed), the other <= 55 bytes and the length symbolic: Ok(m) => serialize writes messageLength bytes equal to the input on all defined bits (reserved bits zero), nothing beyond; no panic", timeout=1500),
+        H(ST, "c41", "c41_parse_sync_tlv", "same inputs: header fields at their wire offsets, messageLength bounds, TLV iterator walks exactly the TLVs of the raw suffix (type code, even length, value bytes)", timeout=1500),
     ] + [
         H(ST, "c41", "c41_build_" + k, "%s body, symbolic header/body/TLVs: serialise (length, messageLength, TLV headers at their offsets) and parse back to an equal message; TLVs iterate in order" % n,
-          tier=("quick" if k in _quick_kinds else "thorough"), timeout=900) for k, n in _kinds
+          tier=("quick" if k in _quick_kinds else "thorough"), timeout=900) for k, n in _kinds if k in ("sync", "announce", "management")
     ] + [
-        H(ST, "c41", "c41_build_kf_trailing_empty_tlv", "FINDING (expected to fail until fixed): a message whose last TLV has an empty value serialises but does not parse back", timeout=900),
-        H(ST, "c41", "c41_build_kf_odd_tlv_length", "FINDING (expected to fail until fixed): TlvSetBuilder accepts odd-length TLV values; the serialised message is rejected by the parser (debug assertion in dev)", timeout=900),
+        H(ST, "c41", "c41_build_kf_trailing_empty_tlv", "FINDING (expected to fail until fixed): a message whose last TLV has an empty value serialises but does not parse back", timeout=1200),
+        H(ST, "c41", "c41_build_kf_odd_tlv_length", "FINDING (expected to fail until fixed): TlvSetBuilder accepts odd-length TLV values; the serialised message is rejected by the parser (debug assertion in dev)", timeout=1200),
     ],
 )
